@@ -5,6 +5,7 @@ import numpy as np
 from vmon import biv, stats
 from vmon.core import exc_detail, exc_mech, rng_for
 from vmon.monitors import c10
+from vmon.monitors.c10 import frank_tol
 from vmon.refs import arch, rank, samplers
 
 PROPERTY = 'C11'
@@ -96,7 +97,7 @@ def _consistency(spec, ctx):
                   'C11:%s-theta-miscalibrated' % fam, lambda: dict(where, theta=theta, ref=ref, tau_b=tb))
     else:
         tref = float(arch.Arch('frank', theta).tau()) if theta else float('nan')
-        ctx.check(theta is not None and theta != 0 and abs(tref - tb) <= 5e-3, 'select.calibrated',
+        ctx.check(theta is not None and theta != 0 and abs(tref - tb) <= frank_tol(tb), 'select.calibrated',
                   'C11:frank-theta-miscalibrated', lambda: dict(where, theta=theta, tau_of_theta=tref, tau_b=tb))
     # determinism on an equal copy, and through the deprecated alias
     ok2, m2 = ctx.call(select_copula, X0.copy())
